@@ -313,6 +313,198 @@ private:
     }
 };
 
+
+// =============================================================================================
+// C20: XInclude. The generator owns a tree model of every file; the reference expander works on that model.
+struct XNode {
+    int kind = 0;                    // 0 element, 1 text, 2 comment, 3 xi:include, 4 orphan xi:fallback
+    std::string name, text; std::vector<std::pair<std::string, std::string>> attrs; std::vector<XNode> kids;
+    std::string href, parse, encoding; bool xpointer = false; int nFallback = 0; std::vector<XNode> fallback;
+};
+struct XFile { std::string path; bool isText = false; std::string textContent, textEnc; XNode root; bool leadingComment = false; bool missing = false, openFails = false, torn = false; std::string storedXml; };
+
+static std::string xmlEsc(const std::string& s, bool attr) { std::string o; for (char c : s) { if (c == '<') o += "&lt;"; else if (c == '&') o += "&amp;"; else if (c == '>') o += "&gt;"; else if (attr && c == '"') o += "&quot;"; else o += c; } return o; }
+static void serialize(const XNode& n, std::string& o) {
+    switch (n.kind) {
+    case 0: { o += "<" + n.name; for (auto& a : n.attrs) o += " " + a.first + "=\"" + xmlEsc(a.second, true) + "\""; if (n.kids.empty()) { o += "/>"; return; } o += ">"; for (auto& k : n.kids) serialize(k, o); o += "</" + n.name + ">"; return; }
+    case 1: o += xmlEsc(n.text, false); return;
+    case 2: o += "<!--" + n.text + "-->"; return;
+    case 3: { o += "<xi:include"; if (!n.href.empty()) o += " href=\"" + n.href + "\""; if (!n.parse.empty()) o += " parse=\"" + n.parse + "\""; if (!n.encoding.empty()) o += " encoding=\"" + n.encoding + "\""; if (n.xpointer) o += " xpointer=\"element(/1)\"";
+        if (n.nFallback == 0) { o += "/>"; return; } o += ">"; for (int f = 0; f < n.nFallback; f++) { o += "<xi:fallback>"; if (f == 0) for (auto& k : n.fallback) serialize(k, o); o += "</xi:fallback>"; } o += "</xi:include>"; return; }
+    case 4: o += "<xi:fallback><e/></xi:fallback>"; return;
+    }
+}
+static std::string dirOf(const std::string& p) { return p.substr(0, p.rfind('/') + 1); }
+static std::string relPath(const std::string& fromFile, const std::string& to) {
+    std::string fd = dirOf(fromFile); if (to.compare(0, fd.size(), fd) == 0) return to.substr(fd.size());
+    std::string up; std::string d = fd; while (d.size() > 1 && to.compare(0, d.size(), d) != 0) { d = dirOf(d.substr(0, d.size() - 1)); up += "../"; } return up + to.substr(d.size());
+}
+
+struct XWorld { std::vector<XFile> files; const XFile* find(const std::string& p) const { for (auto& f : files) if (f.path == p) return &f; return nullptr; } };
+
+// reference expansion: returns false when the specification demands an error for this document
+static bool expandKids(const XWorld& w, const XFile& file, const std::vector<XNode>& kids, std::vector<std::string>& stack, std::vector<XNode>& out, std::string& why);
+static bool expandInclude(const XWorld& w, const XFile& file, const XNode& inc, std::vector<std::string>& stack, std::vector<XNode>& out, std::string& why) {
+    if (inc.nFallback > 1) { why = "two fallbacks"; return false; }
+    if (inc.href.empty()) { why = "no href"; return false; }
+    if (inc.xpointer) { why = "xpointer"; return false; }
+    if (!inc.parse.empty() && inc.parse != "xml" && inc.parse != "text") { why = "bad parse value"; return false; }
+    std::string target = SimFileMgr::normalize(dirOf(file.path) + inc.href); const XFile* t = w.find(target);
+    bool text = inc.parse == "text";
+    bool available = t && !t->missing && !t->openFails && (text || (!t->torn && !t->isText));   // a torn file is still perfectly good *text*
+    if (!text && available) { if (target == file.path || std::find(stack.begin(), stack.end(), target) != stack.end()) { why = "inclusion loop via " + target; return false; } }
+    if (!available) { if (inc.nFallback == 0) { why = "unavailable target without fallback: " + target; return false; } return expandKids(w, file, inc.fallback, stack, out, why); }
+    if (text) { XNode n; n.kind = 1; n.text = t->isText ? t->textContent : t->storedXml; out.push_back(n); return true; }
+    stack.push_back(target);
+    if (t->leadingComment) { XNode c; c.kind = 2; c.text = "lead"; out.push_back(c); }
+    XNode root = t->root; std::vector<XNode> kids; bool ok = expandKids(w, *t, t->root.kids, stack, kids, why); root.kids = kids; out.push_back(root);
+    stack.pop_back();
+    return ok;
+}
+static bool expandKids(const XWorld& w, const XFile& file, const std::vector<XNode>& kids, std::vector<std::string>& stack, std::vector<XNode>& out, std::string& why) {
+    for (auto& k : kids) {
+        if (k.kind == 3) { if (!expandInclude(w, file, k, stack, out, why)) return false; }
+        else if (k.kind == 4) { why = "orphan fallback"; return false; }
+        else if (k.kind == 0) { XNode e = k; std::vector<XNode> sub; if (!expandKids(w, file, k.kids, stack, sub, why)) return false; e.kids = sub; out.push_back(e); }
+        else out.push_back(k);
+    }
+    return true;
+}
+
+static Json xnodeToJson(const XNode& n) {
+    Json j = Json::obj(); j.set("k", n.kind); if (!n.name.empty()) j.set("n", n.name); if (!n.text.empty()) j.set("t", bytesEnc(n.text));
+    if (!n.attrs.empty()) { Json a = Json::arr(); for (auto& x : n.attrs) { Json p = Json::arr(); p.push(x.first); p.push(x.second); a.push(p); } j.set("a", a); }
+    if (!n.kids.empty()) { Json c = Json::arr(); for (auto& k : n.kids) c.push(xnodeToJson(k)); j.set("c", c); }
+    if (n.kind == 3) { j.set("href", n.href); if (!n.parse.empty()) j.set("parse", n.parse); if (!n.encoding.empty()) j.set("enc", n.encoding); if (n.xpointer) j.set("xp", true); j.set("nf", n.nFallback); if (!n.fallback.empty()) { Json c = Json::arr(); for (auto& k : n.fallback) c.push(xnodeToJson(k)); j.set("fb", c); } }
+    return j;
+}
+static XNode xnodeFromJson(const Json& j) {
+    XNode n; n.kind = (int)j.geti("k"); n.name = j.gets("n"); n.text = bytesDec(j.gets("t")); for (auto& p : j.at("a").a) if (p.a.size() == 2) n.attrs.emplace_back(p.a[0].s, p.a[1].s); for (auto& c : j.at("c").a) n.kids.push_back(xnodeFromJson(c));
+    n.href = j.gets("href"); n.parse = j.gets("parse"); n.encoding = j.gets("enc"); n.xpointer = j.getb("xp"); n.nFallback = (int)j.geti("nf"); for (auto& c : j.at("fb").a) n.fallback.push_back(xnodeFromJson(c));
+    return n;
+}
+
+class XIncEngine : public Engine {
+public:
+    std::string property() const override { return "C20"; }
+    std::string rule() const override { return "one run = one generated inclusion graph over 3-7 files in nested directories of the simulated file system (relative hrefs incl. '../', repeated includes, includes at any depth incl. inside included content, parse=xml and parse=text with UTF-8 / UTF-16 / ISO-8859-1 text, cycles and self-inclusion, targets missing / unopenable / torn, fallbacks with nested includes, invalid usages: unknown parse value, xpointer, two fallbacks, orphan fallback, missing href), every file read through a seeded short-read schedule, processed by XercesDOMParser or DOMLSParser with XInclude on; the merged tree (xml:base attributes set aside) must equal the expansion computed by the reference expander over the generator's tree model with the same fault decisions, or - where the specification demands an error - an error must be reported and processing must end within the step budget. distinct = plan hash; non-trivial = at least one xi:include was processed"; }
+    Json describe() const override {
+        Json d = Json::obj(); Json real = Json::arr(); for (auto s : { "XIncludeUtils / XIncludeLocation / XIncludeDOMDocumentProcessor", "XercesDOMParser, DOMLSParserImpl, AbstractDOMParser", "DOMDocumentImpl::importNode, replaceChild", "LocalFileInputSource / URLInputSource / BinFileInputStream, transcoders" }) real.push(s);
+        Json stub = Json::arr(); for (auto s : { "XMLFileMgr (in-memory tree with short-read schedules, missing / unopenable files)", "XMLNetAccessor (empty)" }) stub.push(s);
+        d.set("components_real", real); d.set("components_stubbed", stub); d.set("simulated_time", "logical steps: file-manager calls and handler callbacks");
+        Json as = Json::arr(); as.push("xml:base attributes are not compared literally; base fix-up is judged by whether nested relative hrefs inside included content reach the files the model says they designate"); d.set("assumptions", as); return d;
+    }
+    void globalInit() override { if (!inited) { XMLPlatformUtils::Initialize(XMLUni::fgXercescDefaultLocale, 0, 0, new CachingGlobalMM()); inited = true; } }
+    uint64_t defaultRuns(const std::string& tier) const override { return tier == "quick" ? 20000 : 400000; }
+
+    // the encoding of a text file is a function of its name, so that includes generated before the file know it
+    static std::string textEncOf(const std::string& path) { unsigned h = (unsigned)(fnv1a(path) % 4); return h == 2 ? "UTF-16" : h == 3 ? "ISO-8859-1" : ""; }
+    XNode genContent(Rng& r, const std::vector<std::string>& paths, const std::string& self, int depth, bool allowBad) {
+        XNode e; e.kind = 0; e.name = std::string("e") + (char)('a' + r.below(5)); if (r.chance(1, 3)) e.attrs.emplace_back("k", "v" + std::to_string(r.below(9)));
+        int n = depth >= 2 ? 0 : r.range(0, 3); bool lastWasText = true;     // never two text-ish nodes in a row, never an include next to text
+        for (int i = 0; i < n; i++) {
+            unsigned k = (unsigned)r.below(10);
+            if (k < 4) { e.kids.push_back(genContent(r, paths, self, depth + 1, allowBad)); lastWasText = false; }
+            else if (k < 5) { XNode c; c.kind = 2; c.text = "c" + std::to_string(r.below(99)); e.kids.push_back(c); lastWasText = false; }
+            else if (k < 6 && !lastWasText && i + 1 < n) { XNode t; t.kind = 1; t.text = "txt" + std::to_string(r.below(99)) + (r.chance(1, 4) ? " a<b&c" : ""); e.kids.push_back(t); XNode sep; sep.kind = 0; sep.name = "sep"; e.kids.push_back(sep); lastWasText = false; }
+            else { XNode inc; inc.kind = 3; std::string target = paths[r.below(paths.size())];
+                // mostly forward references (acyclic); one time in six any file, which makes loops and self-inclusion
+                if (!r.chance(1, 6)) { size_t me = 0; for (size_t q = 0; q < paths.size(); q++) if (paths[q] == self) me = q; if (me + 1 < paths.size()) target = paths[me + 1 + r.below(paths.size() - me - 1)]; }
+                inc.href = relPath(self, target);
+                bool isTxt = target.size() > 4 && target.compare(target.size() - 4, 4, ".txt") == 0;
+                if (isTxt || r.chance(1, 8)) inc.parse = "text"; else if (r.coin()) inc.parse = "xml";
+                if (isTxt) inc.encoding = textEncOf(target);
+                if (allowBad && r.chance(1, 25)) { unsigned b = (unsigned)r.below(5); if (b == 0) inc.parse = "bogus"; else if (b == 1) inc.xpointer = true; else if (b == 2) inc.nFallback = 2; else if (b == 3) inc.href.clear(); else { XNode of; of.kind = 4; e.kids.push_back(of); } }
+                if (inc.nFallback == 0 && r.chance(1, 2)) { inc.nFallback = 1; int fn = r.range(0, 2); for (int f = 0; f < fn; f++) inc.fallback.push_back(genContent(r, paths, self, depth + 2, false)); }
+                e.kids.push_back(inc); lastWasText = false; }
+        }
+        return e;
+    }
+    Json generate(uint64_t seed, uint64_t index, const std::string& tier) override {
+        (void)tier; Rng wr = runRng(seed, index, "workload"), cr = runRng(seed, index, "chunks"), fr = runRng(seed, index, "faults");
+        static const char* dirs[] = { "/sim/x/", "/sim/x/sub/", "/sim/x/sub/deep/", "/sim/x/other/" };
+        int nXml = wr.range(2, 5), nTxt = wr.range(0, 2); std::vector<std::string> paths; paths.push_back("/sim/x/main.xml");
+        for (int i = 1; i < nXml; i++) paths.push_back(std::string(dirs[wr.below(4)]) + "f" + std::to_string(i) + ".xml");
+        for (int i = 0; i < nTxt; i++) paths.push_back(std::string(dirs[wr.below(4)]) + "t" + std::to_string(i) + ".txt");
+        if (wr.chance(1, 3)) paths.push_back("/sim/x/sub/nowhere.xml");      // a target that will not exist
+        Json files = Json::arr(); bool allowBad = wr.chance(1, 4);
+        for (auto& p : paths) {
+            Json f = Json::obj(); f.set("path", p);
+            if (p.find("nowhere") != std::string::npos) { f.set("missing", true); files.push(f); continue; }
+            if (p.compare(p.size() - 4, 4, ".txt") == 0) { std::string enc = textEncOf(p); f.set("text", true); f.set("enc", enc);
+                std::string t = "plain <text> & more"; int n = wr.range(1, 30); for (int i = 0; i < n; i++) t += (enc == "ISO-8859-1" || wr.coin()) ? "caf\xc3\xa9 " : "\xe6\xbc\xa2\xe5\xad\x97 "; f.set("content", bytesEnc(t)); }
+            else { XNode root = genContent(wr, paths, p, 0, allowBad); root.name = "d" + std::to_string(&p - &paths[0]); root.attrs.insert(root.attrs.begin(), std::make_pair(std::string("xmlns:xi"), std::string("http://www.w3.org/2001/XInclude"))); f.set("root", xnodeToJson(root)); f.set("lead", wr.chance(1, 5)); }
+            if (p != "/sim/x/main.xml" && fr.chance(1, 10)) { unsigned k = (unsigned)fr.below(3); f.set(k == 0 ? "missing" : k == 1 ? "open_fails" : "torn", true); }
+            f.set("sched", (cr.coin() ? Schedule() : genSchedule(cr, 2000)).toJson());
+            files.push(f);
+        }
+        Json plan = Json::obj(); plan.set("mode", "xinclude"); plan.set("files", files); plan.set("api", wr.coin() ? API_DOM : API_DOMLS); plan.set("source", wr.chance(3, 4) ? "file" : "custom");
+        return plan;
+    }
+    Outcome execute(const Json& plan) override {
+        Outcome o; o.fingerprint = fnv1a(plan.dump()); g_run.reset(5000000);
+        XWorld w; std::map<std::string, Schedule> scheds;
+        for (auto& fj : plan.at("files").a) { XFile f; f.path = fj.gets("path"); f.missing = fj.getb("missing"); f.openFails = fj.getb("open_fails"); f.torn = fj.getb("torn"); f.isText = fj.getb("text"); f.textEnc = fj.gets("enc"); f.textContent = bytesDec(fj.gets("content")); f.leadingComment = fj.getb("lead"); if (fj.has("root")) f.root = xnodeFromJson(fj.at("root")); scheds[f.path] = Schedule::fromJson(fj.at("sched")); w.files.push_back(f); }
+        const XFile* mainF = w.find("/sim/x/main.xml"); if (!mainF) return o;
+        // ---- simulated file system
+        SimFileMgr* fm = new SimFileMgr(); SimNetAccessor* na = new SimNetAccessor(); fm->cwd = "/sim/x"; int id = 0;
+        std::string mainBytes;
+        for (auto& f : w.files) {
+            if (f.missing) continue; SimFile sf; sf.id = id++; sf.openFails = f.openFails; sf.sched = scheds[f.path];
+            if (f.isText) { if (f.textEnc == "UTF-16") { std::u16string u = X(f.textContent); sf.data = "\xFF\xFE"; for (char16_t c : u) { sf.data += (char)(c & 0xFF); sf.data += (char)(c >> 8); } } else if (f.textEnc == "ISO-8859-1") { std::u16string u = X(f.textContent); for (char16_t c : u) sf.data += (char)(c & 0xFF); } else sf.data = f.textContent; }
+            else { std::string s = "<?xml version=\"1.0\"?>"; if (f.leadingComment) s += "<!--lead-->"; serialize(f.root, s); if (f.torn) s.resize(s.size() * 2 / 3); sf.data = s; f.storedXml = s; }
+            if (f.path == mainF->path) mainBytes = sf.data;
+            fm->files[f.path] = sf;
+        }
+        // ---- reference expansion
+        std::vector<std::string> stack; stack.push_back(mainF->path); std::vector<XNode> kids; std::string why; XNode expRoot = mainF->root;
+        bool expectOk = expandKids(w, *mainF, mainF->root.kids, stack, kids, why); expRoot.kids = kids;
+        std::string expectedXml = "<?xml version=\"1.0\"?>"; if (mainF->leadingComment) expectedXml += "<!--lead-->"; serialize(expRoot, expectedXml);
+        ParseCfg cfg; cfg.api = (int)plan.geti("api", API_DOM); cfg.ns = true; cfg.positions = false; cfg.doXInclude = true;
+        std::vector<Resource> res(1); res[0].name = "doc.xml"; res[0].role = "doc"; res[0].enc = "UTF-8"; res[0].bytes = mainBytes;
+        ParseEnv env; env.res = &res; env.sourceKind = plan.gets("source", "file"); env.docSysId = mainF->path; env.resolver = 0;
+        ParseResult got, want;
+        try {
+            WorldInstall wi(fm, na);
+            { ParserBox b(cfg.api); b.configure(cfg); got = b.parse(env); }
+            if (expectOk) { ParseCfg c2 = cfg; c2.doXInclude = false; std::vector<Resource> r2(1); r2[0] = res[0]; r2[0].bytes = expectedXml; ParseEnv e2; e2.res = &r2; e2.sourceKind = "membuf"; e2.docSysId = mainF->path; e2.resolver = 0; ParserBox b(c2.api); b.configure(c2); want = b.parse(e2); }
+            if (getenv("VERIF_DEBUG_DUMPS")) { fprintf(stderr, "==== opens:"); for (auto& p : fm->openLog) fprintf(stderr, " %s", p.c_str()); fprintf(stderr, "\n==== expected xml (%s): %s\n==== got\n%s\n==== want\n%s\n", expectOk ? "ok" : why.c_str(), expectedXml.c_str(), got.dump.c_str(), want.dump.c_str()); }
+            if (fm->liveHandles != 0) { o.violated = true; o.cls = "handle-leak"; o.detail = std::to_string(fm->liveHandles) + " file handles left open"; }
+        } catch (const SimAbort&) { o.violated = true; o.cls = std::string("budget:") + (expectOk ? "acyclic" : "error-case"); o.detail = "XInclude processing did not end within the step budget (" + why + ")"; }
+        delete fm; delete na;
+        if (o.violated) return o;
+        size_t nInc = 0; { std::string s; serialize(mainF->root, s); size_t p = 0; while ((p = s.find("<xi:include", p)) != std::string::npos) { nInc++; p++; } }
+        o.nontrivial = nInc > 0; g_run.probes[expectOk ? "expect_merged_tree" : "expect_error"]++; if (!expectOk) { std::string key = why.substr(0, why.find(':')); size_t via = key.find(" via"); if (via != std::string::npos) key.resize(via); g_run.probes["error_case:" + key]++; }
+        if (!documentedException(got.exception)) { o.violated = true; o.cls = "foreign-exception:" + got.exception; return o; }
+        if (!expectOk) {
+            if (got.fatals + got.errors + got.warnings == 0 && got.exception.empty()) { o.violated = true; o.cls = "error-not-reported:" + why.substr(0, why.find(':')); o.detail = "the specification demands an error (" + why + ") but nothing was reported"; }
+            return o;
+        }
+        // strip xml:base attribute lines and the DOC header (document URI / encoding differ by construction)
+        auto strip = [](const std::string& d) { std::string out; size_t i = 0; while (i < d.size()) { size_t e = d.find('\n', i); if (e == std::string::npos) e = d.size(); std::string line = d.substr(i, e - i); i = e + 1; if (line.find("{http://www.w3.org/XML/1998/namespace}base") != std::string::npos || line.find(" xml:base=\"") != std::string::npos) continue;
+            if (line.find("{http://www.w3.org/2000/xmlns/}xmlns xmlns=\"\" ") != std::string::npos) continue;    /* redundant un-declaration added by namespace fix-up */ if (line.compare(0, 4, "DOC ") == 0 || line.compare(0, 7, "WARNING") == 0 || line.compare(0, 5, "ERROR") == 0) continue; out += line; out += '\n'; } return out; };
+        std::string g = strip(got.dump), x = strip(want.dump);
+        if (want.fatals || !want.exception.empty()) { o.violated = false; g_run.probe("reference_xml_unparsable"); return o; }
+        if (got.fatals || !got.exception.empty()) { o.violated = true; o.cls = "fatal-on-valid-inclusion"; o.detail = "all inclusions are satisfiable but processing reported a fatal error: " + got.dump.substr(0, 300); return o; }
+        if (g != x) { std::string dd; size_t i = 0, la = 0; int line = 1; while (i < g.size() && i < x.size() && g[i] == x[i]) { if (g[i] == '\n') { la = i + 1; line++; } i++; } size_t ea = x.find('\n', la), eb = g.find('\n', la);
+            std::string lx = x.substr(la, ea == std::string::npos ? std::string::npos : ea - la), lg = la <= g.size() ? g.substr(la, eb == std::string::npos ? std::string::npos : eb - la) : "";
+            std::string tok = lx.empty() ? "extra" : lx.substr(lx.find_first_not_of(' '), 1); o.violated = true; o.cls = "merged-tree-differs:" + std::string(tok == "T" ? "text" : tok == "E" ? "element" : tok == "!" ? "comment" : tok == "A" ? "attribute" : "other");
+            o.detail = "line " + std::to_string(line) + ": expected=<" + lx.substr(0, 200) + "> got=<" + lg.substr(0, 200) + ">"; }
+        return o;
+    }
+    std::vector<Json> shrinkCandidates(const Json& plan) override {
+        std::vector<Json> c; const Json& fs = plan.at("files");
+        for (size_t i = 1; i < fs.a.size(); i++) { Json p = plan; jsonRemoveAt(p.ref("files"), i); c.push_back(p); }
+        for (size_t i = 0; i < fs.a.size(); i++) { for (const char* k : { "missing", "open_fails", "torn", "lead" }) if (fs.a[i].getb(k)) { Json p = plan; p.ref("files").a[i].erase(k); c.push_back(p); } if (fs.a[i].at("sched").at("sizes").a.size() || fs.a[i].at("sched").geti("rest") < (1 << 20)) { Json p = plan; Json s = Json::obj(); s.set("sizes", Json::arr()); s.set("rest", 1 << 30); p.ref("files").a[i].set("sched", s); c.push_back(p); } }
+        // drop children of any node (depth-first positions)
+        for (size_t i = 0; i < fs.a.size(); i++) if (fs.a[i].has("root")) { std::vector<std::vector<size_t>> paths; collect(fs.a[i].at("root"), {}, paths); for (auto& pth : paths) { Json p = plan; Json* n = &p.ref("files").a[i].ref("root"); for (size_t d = 0; d + 1 < pth.size(); d++) n = &n->ref("c").a[pth[d]]; jsonRemoveAt(n->ref("c"), pth.back()); c.push_back(p); if (c.size() > 400) return c; } }
+        return c;
+    }
+    static void collect(const Json& n, std::vector<size_t> prefix, std::vector<std::vector<size_t>>& out) { const Json& c = n.at("c"); for (size_t i = 0; i < c.a.size(); i++) { auto p = prefix; p.push_back(i); out.push_back(p); collect(c.a[i], p, out); } }
+private:
+    bool inited = false;
+};
+
 int main(int argc, char** argv) {
-    return driverMain(argc, argv, [](const std::string& p) -> Engine* { if (p == "C19") return new WorldEngine(p); return nullptr; });
+    return driverMain(argc, argv, [](const std::string& p) -> Engine* { if (p == "C19") return new WorldEngine(p); if (p == "C20") return new XIncEngine(); return nullptr; });
 }
